@@ -70,6 +70,19 @@ pub struct ExecCfg {
     /// per mille probability that a probe moves the simulated clock forward (1 ms .. 25 h)
     #[serde(default)]
     pub clock_jump_permille: u32,
+    /// "slow or stalled thread" fault (oh_verif_rt::ExecConfig::stall_period; 0 = off)
+    #[serde(default)]
+    pub stall_period: u32,
+    #[serde(default)]
+    pub stall_seed: u64,
+    #[serde(default)]
+    pub stall_budget: u32,
+    /// per mille of the lock acquisitions after which the new holder is descheduled for a while
+    #[serde(default)]
+    pub hold_permille: u32,
+    /// which simulated threads stall (bit = task id % 32)
+    #[serde(default)]
+    pub stall_tasks: u32,
 }
 
 #[derive(Serialize, Deserialize, Clone, Debug, PartialEq, Eq)]
@@ -526,7 +539,30 @@ pub fn generate(rng: &mut Rng, p: &Pools, mode: &str) -> Workload {
         read_short_permille: *rng.pick(&[0, 0, 50, 300, 900]),
         read_eintr_permille: *rng.pick(&[0, 0, 20, 200]),
         clock_jump_permille: *rng.pick(&[0, 0, 0, 5, 50]),
+        stall_period: 0,
+        stall_seed: 0,
+        stall_budget: 0,
+        hold_permille: 0,
+        stall_tasks: 0,
     };
     let sched = if rng.chance(7, 10) { SchedSpec::Random { seed: rng.u64() } } else { SchedSpec::Pct { seed: rng.u64(), depth: rng.range(1, 3) as u32 } };
     Workload { mode: mode.to_string(), cfg, sched, prebuilt, threads, schedule: None }
+}
+
+/// Run indices from here on are "stall runs": the same generator, plus the slow-or-stalled-thread fault
+/// (threads descheduled at seeded function entries of the library, for 1-64 context switches). They are extra
+/// runs appended to every tier, so that the runs 0..n of a tier are exactly what they were without the fault kind.
+pub const STALL_BASE: u64 = 10_000_000;
+
+pub fn generate_for(rng: &mut Rng, p: &Pools, mode: &str, idx: u64) -> Workload {
+    let mut w = generate(rng, p, mode);
+    if idx >= STALL_BASE {
+        w.cfg.stall_period = *rng.pick(&[0, 40, 200, 1_000, 5_000, 25_000]);
+        w.cfg.stall_seed = rng.u64();
+        w.cfg.stall_budget = 400;
+        w.cfg.hold_permille = *rng.pick(&[0, 50, 300, 800, 1000]);
+        // every thread may stall, or one slow thread among fast ones (task 0 is the execution's main thread)
+        w.cfg.stall_tasks = if rng.chance(1, 2) { u32::MAX } else { 1 << (1 + rng.usize_below(w.threads.len().max(1)) % 31) };
+    }
+    w
 }
